@@ -87,7 +87,12 @@ def reverted_fixes():
                 bad += 1
                 continue
             env = dict(os.environ, VERIF_REPO=d)
-            q = subprocess.run([os.path.join(VERIF, 'check'), prop], cwd=VERIF, env=env, capture_output=True, text=True, timeout=1800)
+            try:
+                q = subprocess.run([os.path.join(VERIF, 'check'), prop], cwd=VERIF, env=env, capture_output=True, text=True, timeout=1800)
+            except subprocess.TimeoutExpired:
+                print('reverted fix %s -> check %s did not finish within 1800 s: NOT CAUGHT' % (os.path.basename(diff), prop))
+                bad += 1
+                continue
             caught = q.returncode == 1 and 'VIOLATION property=%s' % prop in q.stdout
             print('reverted fix %s -> check %s exit %d: %s' % (os.path.basename(diff), prop, q.returncode, 'caught' if caught else 'NOT CAUGHT'))
             bad += 0 if caught else 1
